@@ -6,6 +6,7 @@ import (
 	"fmt"
 	"math/big"
 	"os"
+	"path/filepath"
 	"sort"
 	"strings"
 	"sync"
@@ -126,7 +127,60 @@ func judgeC11(rec *stats.Rec, c c11Case) (string, string) {
 	return apiGuard(func() (string, string) { return judgeC11Inner(rec, c) })
 }
 
+// judgeLoaders: the document means the same from a string, a reader and a file.
+func judgeLoaders(rec *stats.Rec, c c11Case) (string, string) {
+	tdir, err := os.MkdirTemp("", "verif-c11-")
+	if err != nil {
+		return "", ""
+	}
+	defer os.RemoveAll(tdir)
+	fp := filepath.Join(tdir, "config.toml")
+	if os.WriteFile(fp, []byte(c.TOML), 0o644) != nil {
+		return "", ""
+	}
+	cs, e1 := lint.NewConfigFromString(c.TOML)
+	cf, e2 := lint.NewConfigFromFile(fp)
+	cr, e3 := lint.NewConfig(strings.NewReader(c.TOML))
+	if e1 != nil || e2 != nil || e3 != nil {
+		if (e1 == nil) != (e2 == nil) || (e1 == nil) != (e3 == nil) {
+			return "loaders-disagree|error", fmt.Sprintf("%d-byte document: string loader err=%v, file loader err=%v, reader err=%v", len(c.TOML), e1, e2, e3)
+		}
+		return "", ""
+	}
+	var first map[string]model.Verdict
+	for li, cfg := range []lint.Configuration{cs, cf, cr} {
+		reg, err := lint.GlobalRegistry().Filter(lint.FilterOptions{ExcludeNames: []string{"e_ca_country_name_missing"}})
+		if err != nil {
+			return "", ""
+		}
+		reg.SetConfiguration(cfg)
+		f, ok := lintObj(c.Kind, c.DER)
+		if !ok {
+			return "", ""
+		}
+		v := engine.Verdicts(f(reg))
+		if li == 0 {
+			first = v
+			continue
+		}
+		names := make([]string, 0, len(first))
+		for n := range first {
+			names = append(names, n)
+		}
+		sort.Strings(names)
+		for _, n := range names {
+			if v[n] != first[n] {
+				return "loaders-disagree|" + n, fmt.Sprintf("%d-byte document (%s, then the [%s] section): %s is %s when loaded from a string, %s from %s", len(c.TOML), c.Shape, c.Target, n, first[n], v[n], []string{"", "a file", "a reader"}[li])
+			}
+		}
+	}
+	return "", ""
+}
+
 func judgeC11Inner(rec *stats.Rec, c c11Case) (string, string) {
+	if c.Mode == "loader" {
+		return judgeLoaders(rec, c)
+	}
 	baseV, baseRun := lintWith(c.Kind, c.DER, nil)
 	if !baseRun.Parsed {
 		rec.Class("parse_rejected")
@@ -520,6 +574,54 @@ func TestC11(t *testing.T) {
 			rec.Sample(map[string]interface{}{"mode": c.Mode, "base": c.Base, "toml": c.TOML, "target": c.Target, "shape": c.Shape})
 		}
 	})
+	// (g) the three loaders agree: a document means the same whether it comes from a string, a reader or a
+	// file, whatever its size (comment preambles of 0 B ... 1 MiB, sizes around powers of two) - an option set
+	// after the preamble still changes its lint, and only that
+	{
+		tdir, terr := os.MkdirTemp("", "verif-c11-")
+		if terr == nil {
+			defer os.RemoveAll(tdir)
+			sens := sensitiveObjects()
+			var lnames []string
+			for n := range altDocs {
+				if len(sens[n]) > 0 {
+					lnames = append(lnames, n)
+				}
+			}
+			sort.Strings(lnames)
+			sizes := []int{0, 1000, 4095, 4096, 8192, 65535, 65536, 65537, 70000, 131072, 300000, 1 << 20}
+			k := 0
+			for _, name := range lnames {
+				o := sens[name][0]
+				for _, sz := range sizes {
+					k++
+					if !stats.Mine(k) {
+						continue
+					}
+					var pre strings.Builder
+					for pre.Len() < sz {
+						pre.WriteString("# configuration preamble, nothing to see here: 0123456789 0123456789 0123456789\n")
+					}
+					doc := pre.String()[:min(pre.Len(), sz)]
+					if !strings.HasSuffix(doc, "\n") && doc != "" {
+						doc = doc[:len(doc)-1] + "\n"
+					}
+					doc += altDocs[name]
+					fp := ""
+					rec.Eval()
+					rec.Class("loader_equivalence")
+					_ = fp
+					c := c11Case{Mode: "loader", TOML: doc, Target: name, DER: o.DER, Kind: o.Kind, Base: o.Name, Shape: fmt.Sprintf("%d-byte comment preamble", sz)}
+					if sig, msg := judgeC11(rec, c); msg != "" {
+						if rec.Report("c11", sig, msg, c) {
+							t.Fatalf("c11 loaders: %s: %s", sig, msg)
+						}
+					}
+					rec.NT(stats.HashS("loader", name, fmt.Sprint(sz)))
+				}
+			}
+		}
+	}
 	// (f) the command line tool applies -config whatever selection flags accompany it
 	if cli := os.Getenv("VERIF_CLI"); cli != "" {
 		cliConfigMatrix(t, rec, cli, stats.Scale(2, 6), "")
